@@ -103,6 +103,10 @@ func randType(r *rand.Rand, depth int) reflect.Type {
 	}
 }
 
+// pointers already handed out during one fill, by type: reused now and then, so that acyclic values with
+// the same pointee reachable along two paths occur (the structural sum counts the pointee on every path)
+var ptrPool = map[reflect.Type][]reflect.Value{}
+
 func fill(r *rand.Rand, v reflect.Value, depth int) {
 	switch v.Kind() {
 	case reflect.Bool:
@@ -155,8 +159,13 @@ func fill(r *rand.Rand, v reflect.Value, depth int) {
 		if r.Intn(4) == 0 {
 			return // nil pointer
 		}
+		if old := ptrPool[v.Type()]; len(old) > 0 && r.Intn(3) == 0 {
+			v.Set(old[r.Intn(len(old))]) // alias an earlier pointer
+			return
+		}
 		p := reflect.New(v.Type().Elem())
 		fill(r, p.Elem(), depth-1)
+		ptrPool[v.Type()] = append(ptrPool[v.Type()], p)
 		v.Set(p)
 	case reflect.Interface:
 		if r.Intn(4) == 0 {
@@ -175,6 +184,26 @@ func fill(r *rand.Rand, v reflect.Value, depth int) {
 		}
 	}
 }
+
+type bigRec struct {
+	S string
+	P *int32
+	A [2]string
+}
+
+func bigRecs(n int) []bigRec {
+	r := make([]bigRec, n)
+	for i := range r {
+		r[i].S = strings.Repeat("s", i%7)
+		if i%3 == 1 {
+			r[i].P = new(int32)
+		}
+		r[i].A[i%2] = strings.Repeat("a", i%5)
+	}
+	return r
+}
+
+var sharedPtr = new(int64)
 
 type namedU struct {
 	A uint
@@ -205,7 +234,29 @@ var namedValues = map[string]interface{}{
 		P *int32
 		S string
 	}{{nil, "ab"}, {new(int32), ""}},
-	"complex":    complex128(1),
+	"complex":          complex128(1),
+	"big-structs-4095": bigRecs(4095),
+	"big-structs-4096": bigRecs(4096),
+	"big-structs-9000": bigRecs(9000),
+	"big-array": func() interface{} {
+		var a [4100]bigRec
+		copy(a[:], bigRecs(4100))
+		return a
+	}(),
+	"big-strings": func() interface{} {
+		r := make([]string, 5000)
+		for i := range r {
+			r[i] = strings.Repeat("x", i%11)
+		}
+		return r
+	}(),
+	"big-bytes":   make([]byte, 70000),
+	"alias-slice": []*int64{sharedPtr, sharedPtr, nil, sharedPtr},
+	"alias-fields": struct {
+		A, B *int64
+		C    interface{}
+	}{sharedPtr, sharedPtr, sharedPtr},
+	"alias-map":  map[string]*int64{"a": sharedPtr, "b": sharedPtr},
 	"unsafe-ptr": unsafe.Pointer(nil),
 	"chan":       make(chan int),
 }
@@ -234,6 +285,7 @@ func init() {
 			t = randType(r, depth)
 		}
 		v := reflect.New(t).Elem()
+		ptrPool = map[reflect.Type][]reflect.Value{}
 		fill(r, v, depth)
 		tree := describe(v)
 		res := "PANIC"
